@@ -130,6 +130,10 @@ def _estimate_merged_gradient(
     delta_variables = delta_variables.reshape(-1, delta_variables.shape[-1])
     delta_functions = delta_functions.flatten()
     active_perturbations &= np.logical_not(np.isnan(delta_functions))
+    # Without any successful perturbation of a realization that carries weight,
+    # the gradient is undefined, like in the non-merged case:
+    if not np.any(active_perturbations):
+        return np.full(delta_variables.shape[-1], np.nan)
     return _invert_linear_equations(
         delta_variables[active_perturbations, :], delta_functions[active_perturbations]
     )
